@@ -139,7 +139,8 @@ static int g_pre_timers; static bool g_timer_live[NTIMERS]; static double g_time
 static struct { int d; } tm_token;
 int64_t timer_mgr_schedule(struct timer_mgr *m, double rel) { CHECK((void *)m == (void *)&tm_token, "harness"); CHECK(g_timer_next < NTIMERS, "harness: timer table"); g_timer_live[g_timer_next] = true; g_timer_rel[g_timer_next] = rel; g_timer_sched_calls++; return g_timer_next++; }
 bool timer_mgr_has_expired(struct timer_mgr *m, int64_t id) { (void)m; CHECK(id >= 0 && id < NTIMERS && g_timer_live[id], "C13: only a live timer is asked about"); return g_timer_expired_now && id < g_pre_timers; /* a timer scheduled in this very step cannot have expired yet */ }
-void timer_mgr_cancel(struct timer_mgr *m, int64_t *id) { (void)m; if (*id >= 0 && *id < NTIMERS) g_timer_live[*id] = false; *id = -1; }
+static int g_cancel_live_calls;
+void timer_mgr_cancel(struct timer_mgr *m, int64_t *id) { (void)m; if (*id >= 0 && *id < NTIMERS) { if (g_timer_live[*id]) g_cancel_live_calls++; g_timer_live[*id] = false; } *id = -1; }
 void timer_mgr_ack(struct timer_mgr *m, int64_t *id) { (void)m; CHECK(*id >= 0 && *id < NTIMERS && g_timer_live[*id], "C13: only a live timer is acknowledged"); g_timer_live[*id] = false; *id = -1; }
 static bool g_tm_fail; static int g_tm_destroy_calls; static bool g_tm_destroy_owner;
 struct timer_mgr *timer_mgr_create(struct xpoll *x, void *l) { (void)x; (void)l; return g_tm_fail ? NULL : (struct timer_mgr *)&tm_token; }
@@ -321,6 +322,51 @@ int main(void)
     } else if (any_progress) CHECK(rc == -1 && e == EAGAIN, "C13: as long as one track is still in progress the connect is in progress (EAGAIN), whatever failed on the other track");
     else CHECK(rc == -1 && e == last_errno, "C13: all tracks failed: the errno of the last failed attempt is reported");
     WITNESS(tc.num_tracks == 2 && tpre[0].state == track_state_initial_delay && tpre[1].state == track_state_bad, "IPv6 track failed while the IPv4 track waits for its head-start delay");
+    return 0;
+}
+#endif
+
+#ifdef OP_DESTROY
+/* tconnect_destroy as owner (xcm_close) and as non-owner (xcm_cleanup in a forked child) from an arbitrary tconnect in
+ * mid-connect: tracks waiting for their head start, with a pending attempt (registration + connect timer) or finished */
+int main(void)
+{
+    build_ips();
+    struct tconnect *tc = malloc(sizeof(struct tconnect)); ASSUME(tc != NULL);
+    memset(tc, 0, sizeof(*tc));
+    tc->algorithm = tconnect_algorithm_happy_eyeballs; tc->fd4 = nd_bool() ? FD4 : -1; tc->fd6 = nd_bool() ? FD6 : -1;
+    tc->timer_mgr = (struct timer_mgr *)&tm_token; tc->xpoll = (struct xpoll *)&tm_token;
+    tc->num_tracks = (int)nd_range(0, 2);
+    int live_timers = 0, live_regs = 0;
+    for (int k = 0; k < 2; k++) if (k < tc->num_tracks) {
+	struct track *t = malloc(sizeof(struct track)); ASSUME(t != NULL);
+	memset(t, 0, sizeof(*t));
+	t->fd4 = (tc->num_tracks == 1 || k == 0) ? FD4 : -1; t->fd6 = (tc->num_tracks == 1 || k == 1) ? FD6 : -1;
+	t->fd_reg_id = -1; t->timer_id = -1; t->num_remote_ips = NIPS; t->timer_mgr = tc->timer_mgr; t->xpoll = tc->xpoll;
+	t->remote_ips = malloc(sizeof(struct xcm_addr_ip) * NIPS); ASSUME(t->remote_ips != NULL);
+	for (int i = 0; i < NIPS; i++) t->remote_ips[i] = ips[i];
+	int st = (int)nd_range(0, 2);
+	if (st == 0) { t->state = track_state_initial_delay; t->ip_idx = -1; t->timer_id = timer_mgr_schedule(t->timer_mgr, 0.2); live_timers++; }
+	else if (st == 1) { t->state = track_state_bad; t->ip_idx = NIPS - 1; t->badness_reason = nd_conn_errno(); }
+	else if (live_regs == 0) { t->state = track_state_connecting; t->ip_idx = 0; t->fd_reg_id = xpoll_fd_reg_add(t->xpoll, FD4, EPOLLOUT); live_regs++; t->timer_id = timer_mgr_schedule(t->timer_mgr, 3); live_timers++; }
+	else { t->state = track_state_bad; t->ip_idx = NIPS - 1; t->badness_reason = ETIMEDOUT; }
+	tc->tracks[k] = t;
+    }
+    int want4 = tc->fd4 >= 0, want6 = tc->fd6 >= 0;
+    g_reg_del_calls = 0; g_cancel_live_calls = 0;
+    bool owner = nd_bool();
+    tconnect_destroy(tc, owner);
+    CHECK(g_closed[0] == want4 && g_closed[1] == want6, "C08: destroy closes the sockets tconnect still owns, once (descriptors are per process: also in a forked child)");
+    CHECK(g_tm_destroy_calls == 1 && g_tm_destroy_owner == owner, "C08: the timer manager is released with the same ownership");
+    if (owner) {
+	CHECK(g_reg_live == 0, "C08: the owner deletes its pending-attempt registration");
+    } else {
+	CHECK(g_reg_del_calls == 0, "C08,C04: xcm_cleanup in a forked child leaves the epoll set shared with the owner alone");
+	CHECK(g_cancel_live_calls == 0, "C08,C04,C13: xcm_cleanup in a forked child cancels no timer: cancelling re-programs the timerfd shared with the owner, whose pending connect timeout / head-start delay would never fire");
+    }
+    WITNESS(!owner && live_timers == 2, "forked child cleans up while two timers are pending");
+    WITNESS(owner && live_regs == 1, "owner closes in mid-connect");
+    CHECK(!g_stray_close, "C08: no stray close");
     return 0;
 }
 #endif
